@@ -212,7 +212,10 @@ def run(ck):
     # decoding is total: a count or length that comes out of an item header is never fed to unchecked arithmetic (`2 * size`
     # panics in checked builds and wraps in release for a header that declares 2^63 entries). The only additions in the
     # decoder advance a cursor by an amount already bounded by the buffer
-    ARITH_OK = {"CursorExt>::advance": "position + n with n <= remaining capacity of the cursor", "decoder::advance_vec": "position + min(n, remaining)"}
+    # (an excuse is tied to the SHAPE that justifies it: the addend is the result of `min` with the pre-allocation cap; a plain
+    # function-wide excuse for `Cursor<&mut [u8]>::advance` had hidden `position + declared_length`, which overflows for the
+    # second chunk of an indefinite-length string - a genuine defect, fixed in the repository with saturating_add)
+    ARITH_OK = {"decoder::advance_vec": "position + min(n, MAX_PRE_ALLOCATED_SIZE)"}
     nar = 0
     for pth in sorted(p2 for p2 in cg.bodies if re.search(r"common::cbor::(decoder|primitives|value)", p2) and not re.search(r"::tests?::|erialize|encode", p2)):
         for bdy in cg.bodies[pth]:
@@ -222,15 +225,16 @@ def run(ck):
                 for st in g.stmts(bi):
                     rv = st.get("rv", {})
                     if rv.get("k") == "bin" and re.match(r"^(Mul|Add|Shl)", rv["op"]) and (op_const(rv["a"]) is None or op_const(rv["b"]) is None):
-                        raw.append((bi, rv["op"]))
+                        capped = any(op_const(x) is None and has_call_origin(g.origins(x), r"::min$") for x in (rv["a"], rv["b"]))
+                        raw.append((bi, rv["op"] + ("" if capped else ":uncapped")))
             if not raw:
                 continue
             nar += 1
             exc = [v for k, v in ARITH_OK.items() if pth.endswith(k)]
-            okr = bool(exc) and all(op.startswith("Add") for (_, op) in raw)
+            okr = bool(exc) and all(op.startswith("Add") and not op.endswith(":uncapped") for (_, op) in raw)
             ck.ob("ERR", pth, "no-unchecked-arithmetic-on-decoded-sizes", okr,
                   "documented: " + exc[0] if okr else "unchecked %s on a value of the decoder: a header that declares a huge count overflows it (panic or wrap-around)" % sorted(set(op for (_, op) in raw)), g.loc(raw[0][0]), nontrivial=False)
-    ck.note("%d decoder functions contain unchecked arithmetic (2 documented cursor advances on the pinned tree)" % nar)
+    ck.note("%d decoder functions contain unchecked arithmetic (1 documented cursor advance on the pinned tree)" % nar)
     # every byte of a decoded item is either interpreted or checked: a decoder that walks its input with an explicit iterator
     # (`chunks`, `rchunks`, `iter`, `split`) and takes a fixed number of elements with next()/next_back() outside a loop must
     # also establish that nothing is left (a later element tested to be absent, or the rest consumed by all/any/for/count);
